@@ -79,5 +79,35 @@ def main() -> int:
     return 1 if unlisted else 0
 
 
+def _sweep_scratch(t0: float) -> None:
+    """Pool workers and forked children that were the first to ask for scratch space own a /dev/shm/verif-<pid>
+    directory that nobody removes when they are killed or leave through os._exit.  Remove the directories of DEAD
+    processes that were created during this run (ours), and any such directory older than six hours."""
+    import glob
+    import shutil
+    import time
+
+    for d in glob.glob("/dev/shm/verif-[0-9]*") + glob.glob("/var/tmp/verif-[0-9]*"):
+        try:
+            pid = int(d.rsplit("-", 1)[1])
+            st = os.stat(d)
+        except (ValueError, OSError):
+            continue
+        if pid == os.getpid() or os.path.exists(f"/proc/{pid}"):
+            continue
+        if st.st_ctime >= t0 - 1 or st.st_mtime < time.time() - 6 * 3600:
+            shutil.rmtree(d, ignore_errors=True)
+
+
+def _main_and_sweep() -> int:
+    import time
+
+    t0 = time.time()
+    try:
+        return main()
+    finally:
+        _sweep_scratch(t0)
+
+
 if __name__ == "__main__":
-    sys.exit(main())
+    sys.exit(_main_and_sweep())
